@@ -2,9 +2,13 @@
   Model of lib/gnu_gama/statan.cpp: `NormalDistribution`, `Normal`, `Student`, `Chi_square`,
   `KSprob` — same operations in the same order, over `[Scalar K] [Transc K] [Trunc K]`.
   Loops without a syntactic bound (series / continued fraction of `NormalDistribution`) take fuel.
+  The decision fragments (loop exit tests, the `maxd/mind` rescaling block, the `Chi_square` selector and its two
+  polynomials) are not written here: they are `Gama.StatanGen.*`, regenerated from statan.cpp on every run
+  (tools/gen/c17_statan.py).
   Core Lean only.
 -/
 import Gama.Model.GeoScalar
+import Gama.Gen.StatanGen
 namespace Gama.Statan
 open Gama Scalar Transc Trunc
 variable {K : Type} [Scalar K] [Transc K]
@@ -27,7 +31,7 @@ def seriesLoop (x2 : K) : Nat → K → K → K → K → K
   | n+1, y, D, s, r =>
     let y := y * (x2 / r)
     let D := D + y
-    if D - s ≤ 0 then D
+    if StatanGen.seriesStop D s then D
     else seriesLoop x2 n y D D (r + Scalar.ofNat 2)
 
 /-- state of the continued-fraction loop -/
@@ -43,6 +47,12 @@ structure CF (K : Type) where
   r : K
   D : K
 
+/-- `if (q2 > maxd) { q1 *= mind; q2 *= mind; p1 *= mind; p2 *= mind; }` on `(q1, q2, p1, p2)`; guard and block
+    are the generated `StatanGen.rescaleGuard` / `StatanGen.rescale` -/
+def cfRescale (q : K × K × K × K) : K × K × K × K :=
+  if StatanGen.rescaleGuard maxd q.1 q.2.1 q.2.2.1 q.2.2.2 then StatanGen.rescale mind maxd q.1 q.2.1 q.2.2.1 q.2.2.2
+  else q
+
 /-- one pass of `do { … } while (abs(r - D) > DBL_EPSILON)` -/
 def cfStep (typv : Bool) (c : CF K) : CF K :=
   let t := c.t + Scalar.ofNat 4
@@ -54,22 +64,18 @@ def cfStep (typv : Bool) (c : CF K) : CF K :=
   let s := a2 * c.q1 + t * c.q2
   let q1 := c.q2
   let q2 := s
-  let big : Bool := maxd < q2
-  let q1 := if big then q1 * mind else q1
-  let q2 := if big then q2 * mind else q2
-  let p1 := if big then p1 * mind else p1
-  let p2 := if big then p2 * mind else p2
+  let R := cfRescale (q1, q2, p1, p2)
   let s := c.r
   let r := c.D
-  let D := p2 / q2
+  let D := R.2.2.2 / R.2.1
   let D := if !typv then 1 - D else D
-  { t, a1, a2, p1, q1, p2, q2, s, r, D }
+  { t, a1, a2, p1 := R.2.2.1, q1 := R.1, p2 := R.2.2.2, q2 := R.2.1, s, r, D }
 
 def cfLoop (typv : Bool) : Nat → CF K → CF K
   | 0, c => c
   | n+1, c =>
     let c := cfStep typv c
-    if dblEps < Scalar.abs (c.r - c.D) then cfLoop typv n c else c
+    if StatanGen.cfContinue dblEps c.r c.D then cfLoop typv n c else c
 
 /-- `NormalDistribution(x, D, f)`; result `(D, f)` -/
 def normalDistribution (fuel : Nat) (x : K) : K × K :=
@@ -143,6 +149,19 @@ def hillABCD (r : K) : K × K × K × K :=
   let d := ((lit 945 1 / (b + c) - Scalar.ofNat 3) / b + 1) * Scalar.sqrt (pi / Scalar.ofNat 2 * a) * r
   (a, b, c, d)
 
+/-- the divisor `c` of the first Hill branch: `if (N < 5) c += 0.3*(r-4.5)*(x+0.6); c = (((0.05*d*x-5.0)*x-7.0)*x-2.0)*x+b+c;` -/
+def hillDiv1 (N : Int) (r b c d x : K) : K :=
+  let c := if N < 5 then c + lit 3 1 * (r - lit 45 1) * (x + lit 6 1) else c
+  (((lit 5 2 * d * x - Scalar.ofNat 5) * x - Scalar.ofNat 7) * x - Scalar.ofNat 2) * x + b + c
+
+/-- the divisor `((r+6.0)/(r*y)-0.089*d-0.822)` of the second Hill branch -/
+def hillDiv2 (r d y : K) : K := (r + Scalar.ofNat 6) / (r * y) - lit 89 3 * d - lit 822 3
+
+/-- the radicand factor of the second Hill branch (`y = (…)*y-1.0)*(r+1.0)/(r+2.0)+1.0/y`) -/
+def hillY2 (r d y : K) : K :=
+  ((1 / (hillDiv2 r d y * (r + Scalar.ofNat 2) * Scalar.ofNat 3)
+     + lit 5 1 / (r + Scalar.ofNat 4)) * y - 1) * (r + 1) / (r + Scalar.ofNat 2) + 1 / y
+
 /-- N ≥ 3, the unsigned value computed from the doubled tail probability `alfa` -/
 def studentHill (fuel : Nat) (alfa : K) (N : Int) : K :=
   let r : K := Scalar.ofInt N
@@ -153,16 +172,13 @@ def studentHill (fuel : Nat) (alfa : K) (N : Int) : K :=
   if a + lit 5 2 < y then
     let x := -(normal fuel (lit 5 1 * alfa))
     let y := x * x
-    let c := if N < 5 then c + lit 3 1 * (r - lit 45 1) * (x + lit 6 1) else c
-    let c := (((lit 5 2 * d * x - Scalar.ofNat 5) * x - Scalar.ofNat 7) * x - Scalar.ofNat 2) * x + b + c
+    let c := hillDiv1 N r b c d x
     let y := (((((lit 4 1 * y + lit 63 1) * y + Scalar.ofNat 36) * y + lit 945 1) / c - y - Scalar.ofNat 3) / b + 1) * x
     let y := a * y * y
     let y := if y ≤ lit 2 3 then lit 5 1 * y * y + y else exp y - 1
     Scalar.sqrt (r * y)
   else
-    let y := ((1 / (((r + Scalar.ofNat 6) / (r * y) - lit 89 3 * d - lit 822 3) * (r + Scalar.ofNat 2) * Scalar.ofNat 3)
-               + lit 5 1 / (r + Scalar.ofNat 4)) * y - 1) * (r + 1) / (r + Scalar.ofNat 2) + 1 / y
-    Scalar.sqrt (r * y)
+    Scalar.sqrt (r * hillY2 r d y)
 
 /-- the unsigned critical value for the doubled folded probability -/
 def studentAbs (fuel : Nat) (alfa : K) (N : Int) : K :=
@@ -180,23 +196,6 @@ def student (fuel : Nat) (palfa : K) (N : Int) : K :=
 
 variable [Trunc K]
 
-/-- the two Wilson–Hilferty style polynomials of `Chi_square` -/
-def chiPolyA (f1 f2 : K) : K :=
-  (((((((lit 1565326 9 * f2 + lit 1060438 9) * f2 - lit 6950356 9) * f2 -
-      lit 1323293 8) * f2 + lit 2277679 8) * f2 - lit 8986007 9) * f2 - lit 1513904 8)
-      * f1 + ((((((lit 253001 8 - lit 1450117 9 * f2) * f2 + lit 5169654 9) * f2 -
-      lit 1153761 8) * f2 + lit 1128186 8) * f2 + lit 2607083 8) * f2 - lit 2237368 7)) *
-      f1 + (((((lit 9780499 11 * f2 - lit 8426812 10) * f2 + lit 312558 8) * f2 -
-      lit 8553069 9) * f2 + lit 1348028 10) * f2 + lit 4713941 7) * f2 + lit 10000886 7
-
-def chiPolyB (f1 f2 : K) : K :=
-  (((lit 1264616 8 - lit 1425296 8 * f2) * f1 + (((lit 1400483 8 -
-      lit 588609 8 * f2) * f2 - lit 1091214 8) * f2 - lit 2304527 8)) * f1 + (((((
-      lit 3135411 9 - lit 2728484 10 * f2) * f2 - lit 9699681 9) * f2 + lit 1316872 8) *
-      f2 + lit 2618914 8) * f2 - lit 2222222 7)) * f1 + (((((lit 5406674 11 * f2
-      + lit 3483789 11) * f2 - lit 7274761 10) * f2 + lit 3292181 9) * f2 - lit 8729713 9)
-      * f2 * f2 + lit 4714045 7) * f2 + 1
-
 /-- `Chi_square(p, n)` -/
 def chiSquare (fuel : Nat) (p : K) (n : Int) : K :=
   if n < 2 then
@@ -208,7 +207,7 @@ def chiSquare (fuel : Nat) (p : K) (n : Int) : K :=
     let f1 := 1 / f
     let t := normal fuel p
     let f2 := Scalar.sqrt f1 * t
-    let z := if n < 2 + trunc (Scalar.ofNat 4 * Scalar.abs t) then chiPolyA f1 f2 else chiPolyB f1 f2
+    let z := if StatanGen.chiSel n t then StatanGen.chiPolyA f1 f2 else StatanGen.chiPolyB f1 f2
     f * z * z * z
 
 /-- first `KSprob` loop: `for (double j=1; j<100; j++)` -/
@@ -219,7 +218,7 @@ def ksLoop1 (pi2 xx8 eps : K) : Nat → K → K → K
       let nom := (-(Scalar.ofNat 4) * j * j + Scalar.ofNat 4 * j - 1) * pi2
       let term := exp (nom / xx8)
       let sum := sum + term
-      if term < eps then sum else ksLoop1 pi2 xx8 eps n (j + 1) sum
+      if StatanGen.ksStop1 eps term then sum else ksLoop1 pi2 xx8 eps n (j + 1) sum
     else sum
 
 /-- second `KSprob` loop: `do { … } while (term > eps && k <= 100)` -/
@@ -230,7 +229,7 @@ def ksLoop2 (x2 eps : K) : Nat → K → K → K → K
     let sum := sum + s * term
     let s := -s
     let k := k + 1
-    if eps < term ∧ k ≤ Scalar.ofNat 100 then ksLoop2 x2 eps n k s sum else sum
+    if StatanGen.ksContinue2 eps term k then ksLoop2 x2 eps n k s sum else sum
 
 /-- `KSprob(x)` -/
 def ksProb (x : K) : K :=
